@@ -237,7 +237,16 @@ def check_c18(prop, tier, seed):
         ops = [(x['op'], x['a']) for x in s]
         return len({x for x in ops}) + sum(1 for x in ops if x[0] == 'request')
     scen.sort(key=lambda s: -score(s))
-    chosen = scen[:n]
+    # directed histories (behaviours of Stats.tla as well): a client leaves inside a transaction while it holds another
+    # server connection than the one it used before, which meanwhile serves somebody else's open transaction
+    directed = []
+    for x, y in (('A', 'B'), ('B', 'C'), ('C', 'A')):
+        for how in ('clean', 'abnormal'):
+            directed.append([{'op': 'connect', 'c': x, 'a': ''}, {'op': 'connect', 'c': y, 'a': ''},
+                             {'op': 'request', 'c': x, 'a': 'last'}, {'op': 'request', 'c': y, 'a': 'stmt'},
+                             {'op': 'request', 'c': x, 'a': 'stmt'}, {'op': 'leave', 'c': x, 'a': how},
+                             {'op': 'request', 'c': y, 'a': 'last'}, {'op': 'leave', 'c': y, 'a': 'clean'}])
+    chosen = directed + scen[:n - len(directed)]
     items = [{'id': j + 1, 'steps': s, 'seed': seed * 37 + j} for j, s in enumerate(chosen)]
     results = core.run_parallel(run_scenario, items, workers=14)
     recs = []
